@@ -134,6 +134,30 @@ pub fn replay(cases: &[Value], out: &mut TraceOut) {
                         }
                     }
                 }
+                "cond" => {
+                    // conditional requests against the validator the service itself hands out
+                    let name = case["file"].as_str().unwrap();
+                    let l = file_len(name);
+                    let first = test::call_service(&app, test::TestRequest::get().uri(&format!("/{name}")).to_request()).await;
+                    let etag = first.headers().get(header::ETAG).and_then(|v| v.to_str().ok()).unwrap_or("").to_owned();
+                    let _ = test::read_body(first).await;
+                    let weak = if let Some(rest) = etag.strip_prefix("W/") { rest.to_owned() } else { etag.clone() };
+                    let variant = case["variant"].as_str().unwrap();
+                    let (hname, hval) = match variant {
+                        "inm-same" => ("if-none-match", etag.clone()),
+                        "inm-weak" => ("if-none-match", format!("W/{weak}")),
+                        "inm-list" => ("if-none-match", format!("\"zzz\", W/{weak}")),
+                        "inm-other" => ("if-none-match", "\"zzz\"".to_owned()),
+                        "im-same" => ("if-match", etag.clone()),
+                        "im-weak" => ("if-match", format!("W/{weak}")),
+                        "im-other" => ("if-match", "\"zzz\"".to_owned()),
+                        v => panic!("variant {v}"),
+                    };
+                    let res = test::call_service(&app, test::TestRequest::get().uri(&format!("/{name}")).insert_header((hname, hval)).to_request()).await;
+                    let status = res.status().as_u16();
+                    let body = test::read_body(res).await;
+                    out.emit(json!({"ev":"cond","variant":variant,"status":status,"blen":body.len(),"L":l,"strong":!etag.starts_with("W/") && !etag.is_empty(),"file":name}));
+                }
                 "range" => {
                     let name = case["file"].as_str().unwrap();
                     let l = file_len(name);
